@@ -113,6 +113,7 @@ type srcOpts struct {
 	Box         bool   // generators of element type *rt.Box (fresh objects), adapted to the int protocol by rt.BoxIt
 	GG          bool   // generators of generators (element type Iter[int]); All wraps each in the flattening consumer rt.GGIt
 	ElemExtras  bool   // all_co.go also declares generators of other element types (slice, map, func, any, error, pointer, Iter[int], type parameter)
+	BoxMap      bool   // with Box: element type rt.BoxM (map literal with a computed key), adapter rt.BoxMIt
 	BoxVal      bool   // with Box: element type rt.BoxV (struct value, composite literal operands), adapter rt.BoxVIt
 	PerPkg      int    // programs per package (crash isolation granularity)
 	Race        bool
@@ -349,7 +350,7 @@ func runSrcFamilyN(c *vf.Check, cases []srcCase, callsOf func(i int) int, o srcO
 	writeFile(filepath.Join(dir, "common.go"), drvCommon)
 
 	// native package: all programs
-	natR := &srcRenderer{md: natMode, boxV: o.BoxVal}
+	natR := &srcRenderer{md: natMode, boxV: o.BoxVal, boxM: o.BoxMap}
 	const per = 400
 	for fi := 0; fi*per < np || fi == 0; fi++ {
 		var b strings.Builder
@@ -404,7 +405,7 @@ func runSrcFamilyN(c *vf.Check, cases []srcCase, callsOf func(i int) int, o srcO
 
 	// (box helpers: see boxElem / boxAdapter)
 	// go-co packages: one program per file, PerPkg per package
-	coR := &srcRenderer{md: coMode, api: api, form: o.Form, boxV: o.BoxVal, plainVars: o.Opt || o.By}
+	coR := &srcRenderer{md: coMode, api: api, form: o.Form, boxV: o.BoxVal, boxM: o.BoxMap, plainVars: o.Opt || o.By}
 	hdr := func(pkg string) string {
 		if o.By {
 			// a side-effect import and an import used only by non-generator code: both must survive
@@ -932,6 +933,9 @@ func judgeSrc(c *vf.Check, fam string, cases []srcCase, run *srcRun, flags strin
 }
 
 func boxElem(o srcOpts) string {
+	if o.BoxMap {
+		return "rt.BoxM"
+	}
 	if o.BoxVal {
 		return "rt.BoxV"
 	}
@@ -939,6 +943,9 @@ func boxElem(o srcOpts) string {
 }
 
 func boxAdapter(o srcOpts) string {
+	if o.BoxMap {
+		return "rt.BoxMIt"
+	}
 	if o.BoxVal {
 		return "rt.BoxVIt"
 	}
